@@ -1011,8 +1011,12 @@ func (eng *Engine) replay(o *Obligation) (res replayResult) {
 	}
 	switch {
 	case strings.Contains(out, "VERIF-REPLAY panic:"):
-		// a panic refutes every no-panic obligation and every postcondition of a nopanic function
-		res.Confirmed = true
+		// a panic on inputs satisfying the preconditions refutes a function claimed panic-free
+		if fc.contract != nil && fc.contract.NoPanic {
+			res.Confirmed = true
+		} else {
+			res.Note += " | the real code panicked, but the function is not claimed panic-free: inconclusive for this obligation"
+		}
 	case strings.Contains(out, "VERIF-REPLAY post: false"):
 		res.Confirmed = true
 	}
